@@ -95,12 +95,26 @@ def unit_axis(rng):
 def axis(rng, lo=1e-3, hi=1e6):
     """axis with length exactly 1 or log-uniform in [lo, hi]"""
     a = unit_axis(rng)
-    if rng.random() < 0.35:
+    r = rng.random()
+    if r < 0.3:
         return a
+    if r < 0.38:
+        # nearly of unit length, not exactly (typed in to six decimals, passed through single precision, scaled by 1 +- 1e-9 .. 1e-5)
+        k = rng.integers(3)
+        return np.round(a, 6) if k == 0 else a.astype(np.float32).astype(np.float64) if k == 1 else a * (1 + sign(rng) * logu(rng, 1e-9, 1e-5))
     return a * logu(rng, lo, hi)
 
 
 def transl(rng, n=3, lo=1e-6, hi=1e6, pzero=0.12):
+    t = _transl(rng, n, lo, hi, pzero)
+    if rng.random() < 0.06:
+        # one component a negative zero or rounding noise (what products of rotations and translations leave behind)
+        t = np.array(t, dtype=np.float64)
+        t[rng.integers(n)] = -0.0 if rng.random() < 0.5 else sign(rng) * logu(rng, 1e-22, 1e-14)
+    return t
+
+
+def _transl(rng, n=3, lo=1e-6, hi=1e6, pzero=0.12):
     r = rng.random()
     if r < pzero:
         return np.zeros(n)
